@@ -210,18 +210,22 @@ theorem op_eff (t : Spec.St) (a : ASt) (op : Op) (fr : FRel t a) (hed : isEdit o
   | bind l =>
     by_cases hl : l < a.nLabels
     · obtain ⟨n, h1, h2, h3⟩ := fr.lab l hl
+      have hnc : (t.f.nodes.getD n (.comment "?")).isCpool = false := by
+        have h3' := h3; simp only [nodeAt] at h3'; rw [h3']; rfl
+      have hnc' : (t.f.nodes[n]?.getD (.comment "?")).isCpool = false := by
+        simpa [List.getD_eq_getElem?_getD] using hnc
       have h1' : t.f.labelNodes[l]?.getD none = some n := by simpa [List.getD_eq_getElem?_getD] using h1
       have hv : t.f.labelValid l = true := by simp [Front.labelValid, fr.nLabels, hl]
       by_cases hb : l ∈ a.bound
       · have hact : t.d.has n = true := by
           simp only [Doc.has, List.contains_iff_mem]; exact (fr.bound l n hl h1).mpr hb
-        exact eff_reject t a _ (.err "LabelAlreadyBound") fr (by simp [front, hv, h1, h1', hact]) (by simp [astep, hl, hb])
+        exact eff_reject t a _ (.err "LabelAlreadyBound") fr (by simp [front, hv, h1, h1', hact, hnc, hnc']) (by simp [astep, hl, hb])
       · have hnot : n ∉ t.d.items := fun h => hb ((fr.bound l n hl h1).mp h)
         have hact : t.d.has n = false := by simp [Doc.has, hnot]
         have ea : astep a (.bind l) = { (a.emit (.bind l)) with bound := l :: a.bound } := by simp [astep, hl, hb]
         refine Eff.ins t.f n (.bind l) ?_ ⟨[], by simp⟩ rfl hnot (by rw [h3]; rfl) rfl (by rw [ea]; rfl) (by rw [ea]; rfl)
           (by rw [ea]; rfl) (by rw [ea]; rfl) ?_
-        · rw [spec_step_state]; simp [front, hv, h1, h1', hact]
+        · rw [spec_step_state]; simp [front, hv, h1, h1', hact, hnc, hnc']
         · intro d' hm; rw [ea]; exact FRel_bind t a d' l n fr hl h1 h2 h3 hm
     · have hv : t.f.labelValid l = false := by simp [Front.labelValid, fr.nLabels, hl]
       exact eff_reject t a _ (.err "InvalidLabel") fr (by simp [front, hv]) (by simp [astep, hl])
@@ -281,6 +285,7 @@ theorem op_eff (t : Spec.St) (a : ASt) (op : Op) (fr : FRel t a) (hed : isEdit o
       exact eff_reject t a _ (.err "InvalidLabel") fr (by simp [front, hv]) (by simp [astep, hdec])
   | «section» s => exact absurd rfl (hsec s)
   | cpool l isz bytes => exact absurd rfl (hcp l isz bytes)
+  | gconst z b => simp [isEdit] at hed
   | cursor n => simp [isEdit] at hed
   | remove n => simp [isEdit] at hed
   | removerange x y => simp [isEdit] at hed
